@@ -634,16 +634,19 @@ def collect_binding_information_body(
                 bound_variables.update(bound)
                 unbound_variables.update(unbound)
                 if stm.atom.ast_type in (ASTType.BodyAggregate, ASTType.Aggregate):
-                    if stm.atom.left_guard is not None:
-                        if stm.sign == Sign.NoSign and stm.atom.left_guard.comparison == ComparisonOperator.Equal:
-                            bound_variables.update(collect_ast(stm.atom.left_guard, "Variable"))
+                    for guard in (stm.atom.left_guard, stm.atom.right_guard):
+                        if guard is None:
+                            continue
+                        guard_vars = collect_ast(guard, "Variable")
+                        if (
+                            stm.sign == Sign.NoSign
+                            and guard.comparison == ComparisonOperator.Equal
+                            and len(guard_vars) == 1
+                            and not has_unsafe_operation(guard.term)  # |X| = #sum{..} does not bind X
+                        ):
+                            bound_variables.update(guard_vars)
                         else:
-                            unbound_variables.update(collect_ast(stm.atom.left_guard, "Variable"))
-                    if stm.atom.right_guard is not None:
-                        if stm.sign == Sign.NoSign and stm.atom.right_guard.comparison == ComparisonOperator.Equal:
-                            bound_variables.update(collect_ast(stm.atom.right_guard, "Variable"))
-                        else:
-                            unbound_variables.update(collect_ast(stm.atom.right_guard, "Variable"))
+                            unbound_variables.update(guard_vars)
                     for element in stm.atom.elements:
                         term_vars = set()
                         if stm.atom.ast_type == ASTType.BodyAggregate:
